@@ -223,7 +223,7 @@ PROPS["C13"] = dict(
 
 PROPS["C12"] = dict(
     level="proof", runs=[dict(bin="c12")],
-    quick=dict(n=3000, shards=16),
+    quick=dict(n=3250, shards=16),
     thorough=dict(n=100000, shards=128, run_timeout=3000, coq_case_timeout=3000),
     trusted_base=[
         "model coq/C12/Model.v of jsonld/src/serializer/engine.rs (after the fix: commits), util_traits.rs filters and the three options (hand-written; hash maps as association lists, vector index = (graph,id) pair); fuel = number of nodes for mark/cells/convert: for cells/convert proved sufficient (cells_stable, L_le_nodes; the round-trip theorem is about the fuelled functions themselves), for mark argued (the Rust loop climbs distinct nodes), anchoring fuel proved irrelevant; coq/C12/Calls.v: the serializer object (one fresh engine per call, writer targets append, the jsonifier keeps the last document, InvalidJsonLiteral aborts the call)",
